@@ -13,7 +13,7 @@ def work(job):
     k, idx = job
     m = importlib.import_module(f"props.C{k:02d}")
     it = m.proof_items()[idx]
-    r = proof.prove_contract(it.contract, m.registry(), "quick", it.call)
+    r = proof.prove_contract(it.contract, it.registry() if it.registry else m.registry(), "quick", it.call)
     bad = [(x["name"], x["line"], x["status"], (x.get("reason") or "")[:60]) for x in r["refuted"] + r["unknown"]]
     return (f"C{k:02d}", it.contract.name, r["rung"], r["discharged"], r["obligations"], r["solver_s"], r.get("reason"), bad)
 
